@@ -352,7 +352,7 @@ _reg("C20", c20.run, translator=("T6", "T7"), module="NirVerif.Properties.C20Cub
                "NirVerif.C20.lif_records_independent", "NirVerif.C20.runA", "NirVerif.C20.runB",
                "NirVerif.C20.argmin3_min", "NirVerif.C20.good_init", "NirVerif.C20.good_step", "NirVerif.C20.good_all",
                "NirVerif.C20.spike_event_at_threshold", "NirVerif.C20.below_between_events",
-               "NirVerif.C20.below_after_last_event", "NirVerif.C20.cuba_run_euler", "NirVerif.C20.cuba_run_length"],
+               "NirVerif.C20.below_after_last_event", "NirVerif.C20.cuba_go_euler", "NirVerif.C20.cuba_run_euler", "NirVerif.C20.cuba_run_length"],
      rule="Random tau in [1e-4,1], R, v_leak in [-2,2] (85% non-zero), v_threshold > v_leak, initial voltages below "
           "threshold: zero-step, split-step, long-time limit, RK4 comparison, threshold crossing of predicted spike "
           "times; event loop on 1-7 step currents with 5 recording intervals incl. non-dividing ones; CubaLIF reference "
